@@ -231,12 +231,25 @@ def _run_sketch(sx, name, scenario, iterations, probes, jitter):
         opt.add_clamp(c)
     for (_, _, l) in links:
         opt.add_link(l)
-    q0 = opt.grid.quality
-    opt.optimize(max_iterations=iterations, tolerance=0.1 if sx.sym else 1e-6, method="SLSQP")
-    sx.reach("optimized")
-    q1 = opt.grid.quality
     tag = f"{name}/{scenario}"
-    sx.prove(_not_worse(sx, q1, q0), f"{tag}: summed quality after optimize() is not worse than before", f"C13:quality:{scenario}")
+    crashed = None
+    try:
+        q0 = opt.grid.quality
+        opt.optimize(max_iterations=iterations, tolerance=0.1 if sx.sym else 1e-6, method="SLSQP")
+        q1 = opt.grid.quality
+    except ValueError as e:
+        # concrete runs only (ground twins, replays): the sketch handed to the optimiser is valid by construction (unit quads,
+        # jitter <= 0.3), so a degenerate cell was made by the library itself (e.g. a link that put its follower elsewhere);
+        # that is not a better grid, and the remaining obligations are judged on the grid as it stands
+        if sx.sym or "Degenerate" not in str(e):
+            raise
+        crashed = str(e)[:80]
+    sx.reach("optimized")
+    if crashed:
+        sx.prove(False, f"{tag}: summed quality after optimize() is not worse than before (the grid became degenerate: {crashed})",
+                 f"C13:quality:{scenario}", info={"exception": crashed})
+    else:
+        sx.prove(_not_worse(sx, q1, q0), f"{tag}: summed quality after optimize() is not worse than before", f"C13:quality:{scenario}")
     G = opt.grid.points
     followers = {j for (_, j, _) in links}
     still = [i for i in range(len(base)) if i not in clamps and i not in followers]
